@@ -100,10 +100,21 @@ def r20_1(ctx, prog, crate):
                       detail={"body": b.path, "sequence": list(seq)})
         ctx.anchor("R20.1", "returning paths of " + b.path, n, 2)
     # run_bench closure: scenarios for the thread-count loop
+    # the captured flag `thread_counts.len() > 1` and the captured thread-count slice, identified by what they are
+    flag_name, counts_name = None, None
+    for cn in rb.captures or []:
+        cp = prog.capture_operand(rb, cn)
+        if not cp:
+            continue
+        for o in origins(cp[0], cp[1]):
+            if o[0] == "rvalue" and o[1]["k"] == "binop" and o[1]["op"] == "Gt" and const_int(o[1]["b"]) == 1:
+                flag_name = cn.lstrip("*")
+        if cp[1]["k"] in ("copy", "move") and "NonZero<usize>" in cp[0].local_ty(cp[1]["p"]["l"]) and "[" in cp[0].local_ty(cp[1]["p"]["l"]):
+            counts_name = cn.lstrip("*")
     flag_sw = []
     for bi, t in rb.switches():
         srcs = rb.prov.op_src(t["discr"])
-        if {z.kind for z in srcs} == {"upvar"} and {z.a.lstrip("*") for z in srcs} == {"has_thread_branches"}:
+        if flag_name is not None and {z.kind for z in srcs} == {"upvar"} and {z.a.lstrip("*") for z in srcs} == {flag_name}:
             flag_sw.append(bi)
     nx = [c for c in rb.live_calls() if c.callee.endswith("::next")]
     if not ctx.check(len(flag_sw) >= 3 and len(nx) == 1, "R20.1", [rb.path, "scenario-anchors"],
@@ -113,7 +124,7 @@ def r20_1(ctx, prog, crate):
     if not ctx.check(nsw is not None, "R20.1", [rb.path, "loop-switch"], "no match on the loop's next()", nx[0].line()):
         return
     loop_bb = nsw[0]
-    _side_conditions(ctx, prog, crate, re_, rb, nx[0])
+    _side_conditions(ctx, prog, crate, re_, rb, nx[0], flag_name, counts_name)
     for scen, flag, iters in (("single-thread-count", 0, 1), ("thread-branches", "otherwise", 2), ("thread-branches", "otherwise", 3)):
         force = {bi: (lambda v, flag=flag: flag) for bi in flag_sw}
         force[loop_bb] = (lambda v, iters=iters: 1 if v < iters else 0)
@@ -136,11 +147,11 @@ def r20_1(ctx, prog, crate):
         ctx.anchor("R20.1", "returning paths of run_bench (%s x%d)" % (scen, iters), n, 1)
 
 
-def _side_conditions(ctx, prog, crate, re_, rb, nx):
+def _side_conditions(ctx, prog, crate, re_, rb, nx, flag_name, counts_name):
     """has_thread_branches == (thread_counts.len() > 1) and the loop iterates that very slice."""
     cap = None
     for cn in rb.captures or []:
-        if cn.lstrip("*") == "has_thread_branches":
+        if cn.lstrip("*") == flag_name:
             cap = prog.capture_operand(rb, cn)
     ok = False
     if cap:
@@ -155,7 +166,7 @@ def _side_conditions(ctx, prog, crate, re_, rb, nx):
                     base = {z.label() for z in cap[0].prov.op_src(dl[1].args[0]) if z.kind == "call"}
                     # the loop in the closure iterates the captured thread_counts
                     it = {z.a.lstrip("*") for z in rb.prov.op_src(nx.args[0]) if z.kind == "upvar"}
-                    ok = "thread_counts" in it
+                    ok = counts_name is not None and counts_name in it
     ctx.check(ok, "R20.1", [rb.path, "trip-count-side-condition"],
               "cannot establish has_thread_branches == (thread_counts.len() > 1) over the slice the loop iterates", rb.where(0))
     # non-empty: the is_empty -> [MIN] replacement (also C15/R15.4)
@@ -200,7 +211,7 @@ def _is_last_ok(prog, b, a):
     for o in origins(b, a):
         if o[0] == "place" and (1 <= o[1] <= b.arg_count):
             nm = b.param_name(o[1]) if not (b.kind == "Closure" and o[1] == 1) else "captured"
-            ok = "is_last" in nm or nm == "captured"
+            ok = nm == "captured" or b.local_ty(o[1]) == "bool"  # the caller's own is_last, forwarded
             descs.append("param:" + nm)
             ok_all = ok_all and ok
         elif o[0] == "rvalue" and o[1]["k"] == "binop" and o[1]["op"] == "Eq":
